@@ -32,7 +32,9 @@ def _check_structural_constraint(must_link, cannot_link):
         for node in reacheable_nodes:
             samples_to_explore.remove(node)
 
-        for i, j in itertools.combinations(reacheable_nodes, r=2):
+        for node_i, node_j in itertools.combinations(reacheable_nodes, r=2):
+            # Graph nodes are positions in unique_indices: translate them back to sample indices
+            i, j = unique_indices[node_i], unique_indices[node_j]
 
             for pair in cannot_link:
                 pair_i, pair_j = pair
